@@ -530,6 +530,23 @@ class Engine:
                 return None
             return [(pre_atoms + atoms, events, stores, wrap(val)) for atoms, events, stores, val in cp]
 
+        # `x?` : Try::branch forks into Continue(payload) / Break(residual); from_residual rebuilds the early return
+        if m == "std::ops::Try::branch" and len(args) == 1:
+            x = args[0]
+            if "std::option::Option" in callee:
+                return [([enum_atom(x, "Some")], [], [], ("agg", "std::ops::ControlFlow", "Continue", (("0", payload(x, "Some")),))),
+                        ([enum_atom(x, "None")], [], [], ("agg", "std::ops::ControlFlow", "Break", (("0", NONE),)))]
+            if "std::result::Result" in callee:
+                return [([enum_atom(x, "Ok")], [], [], ("agg", "std::ops::ControlFlow", "Continue", (("0", payload(x, "Ok")),))),
+                        ([enum_atom(x, "Err")], [], [], ("agg", "std::ops::ControlFlow", "Break", (("0", ERR(payload(x, "Err"))),)))]
+            return None
+        if m == "std::ops::FromResidual::from_residual" and len(args) == 1:
+            if "std::option::Option" in callee:
+                return [([], [], [], NONE)]
+            if "std::result::Result" in callee:
+                r = args[0]
+                return [([], [], [], r if (r[0] == "agg" and r[2] == "Err") else ERR(payload(r, "Err")))]
+            return None
         # direct call of a closure value
         if m in ("std::ops::Fn::call", "std::ops::FnMut::call_mut", "std::ops::FnOnce::call_once") and len(args) == 2:
             tup = args[1]
